@@ -195,6 +195,10 @@ type Check struct {
 	Prefix func(tier string, shard int) string
 	// Race/asan: build variants this check's thorough tier additionally runs ("race", "asan").
 	Extra func(tier string) []ExtraPass
+	// Post inspects the merged coverage and may return violations (cross-process comparisons).
+	Post func(c *Cov, tier string) []Violation
+	// ShardEnv: extra environment for shard i (e.g. GOMAXPROCS).
+	ShardEnv func(tier string, shard int) []string
 }
 
 // ExtraPass is an additional sanitizer pass run by the driver with another build of the binary.
@@ -385,6 +389,12 @@ func Drive(id string) int {
 				"VERIF_SHARD_OUT="+outp, "VERIF_CALLLOG="+callp, "VERIF_PREFIX="+prefix, "VERIF_WORK="+work,
 				"GOTRACEBACK=all")
 			cmd.Env = append(cmd.Env, j.env...)
+			if ck.ShardEnv != nil {
+				cmd.Env = append(cmd.Env, ck.ShardEnv(tier, j.shard)...)
+			}
+			if strings.HasPrefix(j.pass, "race") {
+				cmd.Env = append(cmd.Env, "GORACE=halt_on_error=0 log_path="+filepath.Join(work, "racelog-"+tag))
+			}
 			lf, _ := os.Create(logp)
 			cmd.Stdout, cmd.Stderr = lf, lf
 			res := childResult{shard: j.shard, pass: j.pass}
@@ -460,6 +470,49 @@ func Drive(id string) int {
 		viol = append(viol, r.out.Viol...)
 	}
 	inconclusive = append(inconclusive, merged.Inconcl...)
+	// race detector reports (counted from the log files, never from exit codes)
+	if rl, _ := filepath.Glob(filepath.Join(work, "racelog-*")); true {
+		total, attributed := 0, 0
+		seenPair := map[string]bool{}
+		for _, f := range rl {
+			bz, err := os.ReadFile(f)
+			if err != nil {
+				continue
+			}
+			for _, blk := range strings.Split(string(bz), "==================") {
+				if !strings.Contains(blk, "WARNING: DATA RACE") {
+					continue
+				}
+				total++
+				if strings.Contains(blk, "noble-cctp/x/cctp") {
+					attributed++
+					key := raceKey(blk)
+					if !seenPair[key] {
+						seenPair[key] = true
+						viol = append(viol, Violation{Props: []string{"C18", id}, Monitor: "race-detector", Sig: "race:" + key,
+							Detail: "data race involving module code:\n" + trunc(blk, 3000), Shard: -1})
+					}
+				} else if !seenPair["other:"+raceKey(blk)] {
+					seenPair["other:"+raceKey(blk)] = true
+					inconclusive = append(inconclusive, "race report outside the module (harness or SDK): "+trunc(blk, 1200))
+				}
+			}
+		}
+		hasRace := false
+		for _, j := range jobs {
+			if strings.HasPrefix(j.pass, "race") {
+				hasRace = true
+			}
+		}
+		if hasRace {
+			merged.Extra["race_reports_total"] = float64(total)
+			merged.Extra["race_reports_attributed_to_module"] = float64(attributed)
+			merged.Extra["race_log_parsed"] = true
+		}
+	}
+	if ck.Post != nil && onlyShard < 0 {
+		viol = append(viol, ck.Post(merged, tier)...)
+	}
 	if ck.Floors != nil && onlyShard < 0 && replaySig == "" {
 		for _, f := range ck.Floors(merged, tier) {
 			inconclusive = append(inconclusive, "coverage floor not met: "+f)
@@ -522,6 +575,9 @@ func Drive(id string) int {
 	}
 
 	// evidence
+	if ck.Assumptions == nil {
+		ck.Assumptions = []string{"the reference model (DESIGN.md Appendix A) transcribes the property statement correctly", "cosmos-sdk baseapp, x/bank and the fiat-token-factory keeper behave as in production"}
+	}
 	ev := map[string]interface{}{
 		"property_id": id, "tier": tier, "seed": seed, "level": ck.Level, "wall_s": time.Since(start).Seconds(),
 		"violations": len(own), "assumptions": ck.Assumptions,
@@ -546,6 +602,11 @@ func Drive(id string) int {
 	}
 	if merged.Samples == nil {
 		cov["samples"] = []interface{}{}
+	}
+	if cd := os.Getenv("VERIF_COVERDIR"); cd != "" {
+		if hc := coverageSummary(cd); hc != nil {
+			cov["handler_coverage"] = hc
+		}
 	}
 	ev["coverage"] = cov
 	if replaySig == "" && onlyShard < 0 {
@@ -586,3 +647,89 @@ func trunc(s string, n int) string {
 func newRand(seed int64) *rand.Rand { return rand.New(rand.NewSource(seed)) }
 
 func subMode() string { return os.Getenv("VERIF_SUBMODE") }
+
+// coverageSummary merges the children's Go cover profiles and summarises statement coverage of
+// the module under test (evidence of reach only; never a verdict).
+func coverageSummary(dir string) map[string]interface{} {
+	files, _ := filepath.Glob(filepath.Join(dir, "*.cov"))
+	if len(files) == 0 {
+		return nil
+	}
+	type blk struct {
+		stmts int
+		hit   bool
+	}
+	blocks := map[string]*blk{}
+	for _, f := range files {
+		bz, err := os.ReadFile(f)
+		if err != nil {
+			continue
+		}
+		for _, line := range strings.Split(string(bz), "\n") {
+			if !strings.Contains(line, "noble-cctp/x/cctp/") || strings.Contains(line, ".pb.") {
+				continue
+			}
+			parts := strings.Fields(line)
+			if len(parts) != 3 {
+				continue
+			}
+			n, _ := strconv.Atoi(parts[1])
+			c, _ := strconv.Atoi(parts[2])
+			b := blocks[parts[0]]
+			if b == nil {
+				b = &blk{stmts: n}
+				blocks[parts[0]] = b
+			}
+			if c > 0 {
+				b.hit = true
+			}
+		}
+	}
+	per := map[string][2]int{}
+	var uncovered []string
+	tot, cov := 0, 0
+	for k, b := range blocks {
+		file := k[:strings.Index(k, ":")]
+		file = file[strings.Index(file, "x/cctp/"):]
+		v := per[file]
+		v[1] += b.stmts
+		tot += b.stmts
+		if b.hit {
+			v[0] += b.stmts
+			cov += b.stmts
+		} else if strings.Contains(file, "keeper/") || strings.HasSuffix(file, "genesis.go") || strings.Contains(file, "types/message") || strings.Contains(file, "types/burn") {
+			uncovered = append(uncovered, k[strings.Index(k, "x/cctp/"):])
+		}
+		per[file] = v
+	}
+	sort.Strings(uncovered)
+	if len(uncovered) > 60 {
+		uncovered = append(uncovered[:60], fmt.Sprintf("… %d more", len(uncovered)-60))
+	}
+	perOut := map[string]string{}
+	for f, v := range per {
+		if v[0] != v[1] && (strings.Contains(f, "keeper/") || strings.Contains(f, "genesis") || strings.Contains(f, "types/")) {
+			perOut[f] = fmt.Sprintf("%d/%d", v[0], v[1])
+		}
+	}
+	return map[string]interface{}{"statements_total": tot, "statements_covered": cov, "files_not_fully_covered": perOut, "uncovered_blocks": uncovered,
+		"note": "statement coverage of github.com/circlefin/noble-cctp/x/cctp (generated .pb files excluded) reached by this run's workloads"}
+}
+
+// raceKey: the pair of outermost module (or first) frames of a race report, line numbers stripped.
+func raceKey(blk string) string {
+	var fr []string
+	for _, line := range strings.Split(blk, "\n") {
+		l := strings.TrimSpace(line)
+		if strings.Contains(l, "(") && !strings.HasPrefix(l, "/") && (strings.Contains(l, "noble-cctp/x/cctp") || len(fr) == 0) {
+			if i := strings.Index(l, "("); i > 0 {
+				l = l[:i]
+			}
+			fr = append(fr, l)
+		}
+		if len(fr) >= 2 {
+			break
+		}
+	}
+	return strings.Join(fr, "|")
+}
